@@ -344,7 +344,12 @@ class Doc(object):
   def meta_schema(self):
     mt = self.engine.fetch_table('_grist_Tables')
     mc = self.engine.fetch_table('_grist_Tables_column')
-    gen = schema_mod.build_schema(mt, mc)
+    try:
+      gen = schema_mod.build_schema(mt, mc)
+    except KeyError as e:
+      # a _grist_Tables record without any column record (metadata broken, e.g. after a rollback that aborted):
+      # build_schema cannot build a schema at all; report that as a schema that matches nothing
+      return {"<metadata unusable: build_schema raised KeyError %s>" % (e,): {}}
     out = {}
     for tid, t in gen.items():
       out[tid] = {cid: [c.type, bool(c.isFormula), c.formula, getattr(c, "reverseColId", 0)]
